@@ -274,9 +274,31 @@ def run(ctx) -> list[Inst]:
                             good.append(d)
                         ok = covered(cfg, e.node, [d.node for d in good])
                         why = 'mirror update is control-equivalent'
+                    untyped_sites = 0
+                    if not ok:
+                        # updates of a `.fb` whose receiver the type environment could not name (an object fetched from a
+                        # local index, `idx.get(k)`): they may well be the mirror - not decided
+                        def chain_has(x):
+                            while isinstance(x, (ast.Subscript, ast.Attribute, ast.Call)):
+                                if isinstance(x, ast.Attribute) and x.attr == fb:
+                                    return True
+                                x = x.func if isinstance(x, ast.Call) else x.value
+                            return False
+                        for n_ in own_nodes(f.node):
+                            if isinstance(n_, ast.Assign) and any(isinstance(t_, ast.Subscript) and chain_has(t_.value)
+                                                                   for t_ in n_.targets):
+                                untyped_sites += 1
+                            if isinstance(n_, ast.Call) and isinstance(n_.func, ast.Attribute) \
+                                    and n_.func.attr in ('append', 'extend', 'add', 'remove', 'pop', 'discard') and chain_has(n_.func.value):
+                                untyped_sites += 1
                     if ok:
                         insts.append(Inst(RULE, f.short, construct, 'ok', msg=why, file=rel,
                                           line=e.lineno, props=props))
+                    elif untyped_sites > len([d for d in mirrors if not d.chain]):
+                        insts.append(Inst(RULE, f.short, construct, 'unproven',
+                                          msg=(f"{untyped_sites} update(s) of a '.{fb}' in {f.short} are on objects whose class "
+                                               f"is not resolved (fetched from a local index): possibly the mirror"),
+                                          file=rel, line=e.lineno, props=props))
                     else:
                         insts.append(Inst(
                             RULE, f.short, construct, 'violation',
